@@ -224,7 +224,7 @@ def float_reads(chk, c, term_c, S, order, rng, reads, mine, rec):
     before = ad.snapshot(c)
     for event, payload in todo:
         chk.count(key="floatread" + repr(event) + repr(rec.values[:4]))
-        for clause, detail in ad.check_read(c, event, ("float", payload), term_c, order):
+        for clause, detail in ad.check_read(c, event, ("float", payload), term_c, order, S):
             if clause.split("/")[0] in mine:
                 script = [(e["res"], e["op"], e["t"], e["a"]) for e in rec.events[1:]]
                 nbad += chk.violation(clause, "continuous parameters: " + detail,
